@@ -203,11 +203,11 @@ func runC03(c *Ctx) {
 		{fn: "IP6.SetPayload", view: "IP6", args: []encArg{{"p", "buf", 0}, {"b", "bytes", 0}, {"nextHeader", "int", 8}},
 			expect: map[string][]string{"NextHeader": {pInt("nextHeader", 8)}, "PayloadLen": {"trunc16(len(b))"}}},
 		{fn: "IP6.AppendPayload", view: "IP6", args: []encArg{{"p", "buf", 0}, {"b", "bytes", 0}, {"nextHeader", "int", 8}},
-			expect: map[string][]string{"NextHeader": {pInt("nextHeader", 8)}, "PayloadLen": {"trunc16(len(b))"}}},
+			expect: map[string][]string{"NextHeader": {pInt("nextHeader", 8)}, "PayloadLen": {"trunc16(len(b))"}, "Payload": {"b[0:560]"}}},
 		{fn: "UDP.SetPayload", view: "UDP", args: []encArg{{"p", "buf", 0}, {"b", "bytes", 0}},
 			expect: map[string][]string{"Len": {"(8 + trunc16(len(b)))"}, "Checksum": {"0"}}},
 		{fn: "UDP.AppendPayload", view: "UDP", args: []encArg{{"p", "buf", 0}, {"b", "bytes", 0}},
-			expect: map[string][]string{"Len": {"(8 + trunc16(len(b)))"}, "Checksum": {"0"}}},
+			expect: map[string][]string{"Len": {"(8 + trunc16(len(b)))"}, "Checksum": {"0"}, "Payload": {"b[0:592]"}}},
 		{fn: "EncodeUDP", view: "UDP", args: []encArg{{"p", "buf", 0}, {"srcPort", "int", 16}, {"dstPort", "int", 16}},
 			expect: map[string][]string{"SrcPort": {be16("srcPort")}, "DstPort": {be16("dstPort")}, "Checksum": {"0"}, "@ret": {"p[0:8]"}}},
 		{fn: "EncodeARP", view: "ARP", args: []encArg{{"p", "buf", 0}, {"operation", "int", 16}, {"srcAddr", "addrstruct", 0}, {"dstAddr", "addrstruct", 0}},
@@ -489,6 +489,40 @@ func runC03(c *Ctx) {
 		}
 		r.Add(core.Obligation{Rule: "capacity", Key: "capacity " + name + " rejects", Func: core.FuncName(fn), Pos: c.P.Pos(fn.Pos()), Status: st,
 			Basis: "returns ErrPayloadTooBig when cap(p)-len(p) < len(b)", Detail: bad})
+		// ... and only then: every path to the error return passes the capacity comparison on its true edge (a payload that
+		// fits - the empty one included - is encoded, in all three functions alike)
+		core.EachInstr(fn, func(i ssa.Instruction) {
+			rt, ok := i.(*ssa.Return)
+			if !ok || len(rt.Results) != 2 {
+				return
+			}
+			if k, ok := rt.Results[1].(*ssa.Const); ok && k.Value == nil {
+				return
+			}
+			var other []string
+			dnf := pathDNF(rt.Block())
+			if len(rt.Block().Preds) <= 1 {
+				dnf = []string{guardTexts(guardsOf(i))}
+			}
+			for _, d := range dnf {
+				okPath := false
+				for _, t := range strings.Split(d, " && ") {
+					if strings.Contains(t, "<len(arg0)") && !strings.HasPrefix(t, "!") {
+						okPath = true
+					}
+				}
+				if !okPath {
+					other = append(other, d)
+				}
+			}
+			s2, d2 := core.Proved, ""
+			if len(other) > 0 || len(dnf) == 0 {
+				s2 = core.Violated
+				d2 = name + " also refuses with " + norm(rt.Results[1]) + " when " + strings.Join(other, "  |  ") + ": a payload that fits the remaining capacity is not encoded"
+			}
+			r.Add(core.Obligation{Rule: "capacity", Key: "capacity " + name + " rejects only what does not fit", Func: core.FuncName(fn), Pos: c.P.Pos(core.PosOf(i)), Status: s2,
+				Basis: "every path to the error return has cap(p)-len(p) < len(b)", Detail: d2})
+		})
 		// (2) no slice/index obligation fails for arbitrary arguments
 		var fails []string
 		n := 0
@@ -626,7 +660,7 @@ func runC03OptionsComplete(c *Ctx) {
 			return
 		}
 		ia, ok := st.Addr.(*ssa.IndexAddr)
-		if !ok || !strings.HasPrefix(norm(ia.X), "local(makeslice)") {
+		if !ok || !(strings.HasPrefix(norm(ia.X), "local(makeslice)") || strings.HasPrefix(norm(ia.X), "make(")) {
 			return
 		}
 		// the option-code store: the value stored is the code (range key / order element), the next store is the length
@@ -638,7 +672,7 @@ func runC03OptionsComplete(c *Ctx) {
 		for _, g := range guardsOf(i) {
 			t := strings.TrimPrefix(g.Text, "!")
 			switch {
-			case strings.Contains(t, "cap(recv)"), strings.Contains(t, "local(makeslice)"):
+			case strings.Contains(t, "cap(recv)"), strings.Contains(t, "local(makeslice)"), strings.Contains(t, "make("):
 			case regexp.MustCompile(`^arg0\[.*\]#1$`).MatchString(t): // comma-ok of the map lookup
 			case t == "next#0": // range over the map
 			case regexp.MustCompile(`^\(\(φ\+1\)<len\(append\(`).MatchString(t): // range over the order list
@@ -659,6 +693,49 @@ func runC03OptionsComplete(c *Ctx) {
 	if n < 2 {
 		c.R.Add(core.Obligation{Rule: "options-complete", Key: "options-complete AppendOptions", Func: core.FuncName(fn), Status: core.Violated, Detail: fmt.Sprintf("expected two emission sites (ordered pass, remaining pass), found %d", n)})
 	}
+	// the scratch buffer the options are staged in holds the whole map: its size is computed from the lengths of the
+	// map's values, not a constant (four 255-byte options need 1028 bytes and fit a 1472-byte frame)
+	var scratch *ssa.MakeSlice
+	constScratch := ""
+	core.EachInstr(fn, func(i ssa.Instruction) {
+		if ms, ok := i.(*ssa.MakeSlice); ok && scratch == nil {
+			scratch = ms
+		}
+		if al, ok := i.(*ssa.Alloc); ok && al.Comment == "makeslice" {
+			constScratch = al.Type().String() // make with a constant size is an array allocation
+		}
+	})
+	st, det := core.Violated, "no scratch buffer found in AppendOptions"
+	if scratch == nil && constScratch != "" {
+		det = "AppendOptions stages the options in a buffer of constant size (" + constScratch + "): a map whose encoding is longer (and still fits the frame) is truncated or indexes past the buffer"
+	}
+	if scratch != nil {
+		_, isConst := scratch.Len.(*ssa.Const)
+		fromMap := false
+		for v := range dataSlice(fn, scratch.Len) {
+			if call, ok := v.(*ssa.Call); ok {
+				if bi, isB := call.Call.Value.(*ssa.Builtin); isB && bi.Name() == "len" {
+					for w := range dataSlice(fn, call.Call.Args[0]) {
+						if nx, isN := w.(*ssa.Next); isN {
+							if rg, isR := nx.Iter.(*ssa.Range); isR && rg.X == ssa.Value(fn.Params[1]) {
+								fromMap = true
+							}
+						}
+					}
+				}
+			}
+		}
+		switch {
+		case isConst:
+			det = "AppendOptions stages the options in a buffer of the constant size " + norm(scratch.Len) + ": a map whose encoding is longer (and still fits the frame) is truncated or indexes past the buffer"
+		case !fromMap:
+			det = "the size of the scratch buffer (" + norm(scratch.Len) + ") is not computed from the lengths of the map's values"
+		default:
+			st, det = core.Proved, ""
+		}
+	}
+	c.R.Add(core.Obligation{Rule: "options-complete", Key: "options-complete AppendOptions scratch buffer holds the whole map", Func: core.FuncName(fn), Pos: c.P.Pos(fn.Pos()), Status: st,
+		Basis: "make([]byte, sum over the map of 2+len(value))", Detail: det})
 }
 
 // runC03OptionsDecoded: the decoding side of the DHCP option map. Every entry DHCP4.ParseOptions puts into the map is
